@@ -1,4 +1,5 @@
-\* DNS64 over the cache: AAAA NODATA entry + A entry composed by Hit64 (Lease64.tla); every C04 property holds
+\* DNS64 over the cache with the RFC 9520 failure record of the AAAA question (Fail64 / HitFail, FailTTL = 5): C04's
+\* lifetime properties and C20's "never over a cached failure" hold
 CONSTANTS
   Ticks = {1, 2, 5}
   Horizon = 100000
@@ -16,7 +17,7 @@ CONSTANTS
   V6Key = "d6"
   V4Key = "d4"
   NegRule = "rfc2308"
-  FailTTL = 0
+  FailTTL = 5
   FailRule = "terminal"
   Routes = {"msg", "wire"}
   Reqs = {1}
@@ -32,6 +33,6 @@ CONSTANTS
   Res = {1}
 SPECIFICATION Spec64
 VIEW View64
-INVARIANTS TypeOKA
-PROPERTIES ServedLive TTLShown TTLMonotone ComposedMin LateWriteLoses
+INVARIANTS TypeOK64
+PROPERTIES ServedLive TTLShown TTLMonotone ComposedMin LateWriteLoses NeverOverCachedFailure NoLookupOverCachedFailure CachedFailureAnswers
 CHECK_DEADLOCK FALSE
